@@ -7,9 +7,11 @@ import SqlObjVerif.Extracted.PyCache
 `absW` maps class `c`'s factory in a state of the hand-written model (`Model/Cache.lean`) to the
 world a `CacheFactory` method runs in (`Model/PyCache.lean`); the `…X` functions RUN the PyCache
 programs that `vlib/extractors/pycache.py` translated from /repo's `cache.py` on this very run.
-`Lemmas/CacheX.lean` proves that each of them ends in the image of what the hand model's function
-for that method yields, for all states (under the representation invariant `DictRep` where the
-method iterates over a dict).
+`Lemmas/CacheX.lean` (loop-free methods, `expireAll`), `Lemmas/CacheXCull.lean` (`cull`, `get`,
+`created`) and `Lemmas/CacheXList.lean` (`clear`, `allIDs`, `getAll`) prove that each of them ends in
+the image of what the hand model's function for that method yields, for all states (under the
+representation invariant `Rep` where the method iterates over a dict); `Lemmas/CacheXRep.lean` proves
+that `Rep` holds in every state the model reaches.
 
 The association lists of the model ARE the dicts of the embedding (`strong` = `self.cache`:
 id ↦ object handle, `weak` = `self.expiredCache`: id ↦ handle the weak reference points to).
